@@ -25,6 +25,7 @@ const (
 	vfMonC04             // outcome + handlers
 	vfMonC05             // stop
 	vfMonC15             // maxActiveRuns
+	vfMonC08             // status persisted during the run is truthful
 )
 
 type vfRunCfg struct {
@@ -165,6 +166,24 @@ func vfCreator(ctx context.Context, step dag.Step) (executor.Executor, error) {
 	return &vfExec{idx: idx}, nil
 }
 
+// vfSnapshotCheck: the overall status computed while the run is in progress (what the agent
+// persists after each step) must not claim success unless every step has finished or was skipped.
+func vfSnapshotCheck() {
+	st := vfSC.Status(vfG)
+	complete := true
+	for _, nd := range vfG.nodes {
+		s := nd.data.State.Status
+		if s != NodeStatusSuccess && s != NodeStatusSkipped {
+			complete = false
+		}
+	}
+	if st == StatusSuccess && !complete {
+		vfClass("mid-run-snapshot-says-finished")
+	}
+	vfAssert(st != StatusSuccess || complete, "C08.persist/run-in-progress-is-not-recorded-as-succeeded")
+	vfReach("snapshot")
+}
+
 func vfHandlerStep(name string) *dag.Step {
 	return &dag.Step{Name: name, ExecutorConfig: dag.ExecutorConfig{Type: "verif"}}
 }
@@ -237,7 +256,11 @@ func vfRun(cfg vfRunCfg) {
 	ctx := dag.NewContext(context.Background(), &dag.DAG{Name: "verif"}, nil, "req", "")
 	done := make(chan *Node)
 	go func() {
+		// as agent.Run does: every finished step triggers a status snapshot that is persisted
 		for range done {
+			if cfg.mon&vfMonC08 != 0 && !vfDone {
+				vfSnapshotCheck()
+			}
 		}
 	}()
 	if cfg.stop {
@@ -503,3 +526,7 @@ func VerifHarness_RUN_C05_n3() { vfRun(vfRunCfg{n: 3, mon: vfMonC05, retries: 1,
 func VerifHarness_RUN_C15_n2() { vfRun(vfRunCfg{n: 2, mon: vfMonC15, retries: 1, maxact: true}) }
 func VerifHarness_RUN_C15_n3() { vfRun(vfRunCfg{n: 3, mon: vfMonC15, retries: 1, maxact: true}) }
 func VerifHarness_RUN_C15_n4() { vfRun(vfRunCfg{n: 4, mon: vfMonC15, maxact: true}) }
+
+// C08: status snapshots persisted during the run.
+func VerifHarness_RUN_C08_n2() { vfRun(vfRunCfg{n: 2, mon: vfMonC08, retries: 1, preconds: true}) }
+func VerifHarness_RUN_C08_n3() { vfRun(vfRunCfg{n: 3, mon: vfMonC08, retries: 1, preconds: true}) }
